@@ -5,11 +5,16 @@ import (
 	"flag"
 	"math/rand"
 	"os"
+	"path/filepath"
 	"reflect"
 	"strings"
+	"sync"
+	"time"
 
 	ucfg "github.com/elastic/go-ucfg"
 	uflag "github.com/elastic/go-ucfg/flag"
+	ujson "github.com/elastic/go-ucfg/json"
+	"github.com/elastic/go-ucfg/yaml"
 )
 
 type flagOpts struct {
@@ -116,6 +121,140 @@ func flagsReplay(args []string) int {
 		}, "flags")
 	}, rep)
 	return rep.finish()
+}
+
+// ---- file flags (Gen_FlagFiles) -----------------------------------------------------------
+
+type flagFile struct {
+	Name string          `json:"name"`
+	Ext  string          `json:"ext"`
+	Doc  json.RawMessage `json:"doc"`
+}
+
+type flagFilesCase struct {
+	Files []flagFile `json:"files"`
+	Opts  struct {
+		Sep  bool   `json:"sep"`
+		Pol  string `json:"pol"`
+		Dflt bool   `json:"dflt"`
+	} `json:"opts"`
+	Exp struct {
+		Ideal json.RawMessage `json:"ideal"`
+		Alts  []altExp        `json:"alts"`
+	} `json:"exp"`
+}
+
+// gvalDoc renders a document value of the specification as generic Go data (keys joined with a dot)
+func gvalDoc(g *gval) interface{} {
+	switch g.G {
+	case "nil":
+		return nil
+	case "p":
+		return primAs(g, "msi")
+	case "l":
+		l := make([]interface{}, len(g.Xs))
+		for i, x := range g.Xs {
+			l[i] = gvalDoc(x)
+		}
+		return l
+	}
+	m := map[string]interface{}{}
+	for _, e := range g.Es {
+		m[segKey(e.Key)] = gvalDoc(e.Val)
+	}
+	return m
+}
+
+func flagFilesReplay(args []string) int {
+	fs := flag.NewFlagSet("flagfiles", flag.ExitOnError)
+	fs.Int64("seed", 1, "seed")
+	fs.Parse(args)
+	rep := newReporter("flagfiles")
+	dir, err := os.MkdirTemp("", "ucfgconf-flagfiles-")
+	if err != nil {
+		rep.infra(err.Error())
+		return rep.finish()
+	}
+	defer os.RemoveAll(dir)
+	var written sync.Map
+	runCases(func(raw []byte, rep *reporter) {
+		var c flagFilesCase
+		if err := json.Unmarshal(raw, &c); err != nil {
+			rep.infra("case: " + err.Error())
+			return
+		}
+		rep.begin(raw)
+		rep.nontrivial(raw)
+		var paths []string
+		for _, f := range c.Files {
+			p := filepath.Join(dir, f.Name+f.Ext)
+			if _, done := written.LoadOrStore(p, true); !done {
+				var text []byte
+				var g gval
+				if err := json.Unmarshal(f.Doc, &g); err != nil {
+					rep.infra("doc: " + err.Error())
+					return
+				}
+				if g.G == "malformed" {
+					text = []byte("{ this is : [ not a document")
+				} else {
+					text, _ = json.Marshal(gvalDoc(&g)) // JSON is also YAML
+				}
+				if err := os.WriteFile(p+".tmp", text, 0o644); err != nil || os.Rename(p+".tmp", p) != nil {
+					rep.infra("write " + p)
+					return
+				}
+			}
+			paths = append(paths, p)
+		}
+		var out flagsOutcome
+		panicked, msg := guard(func() {
+			var opts []ucfg.Option
+			if c.Opts.Sep {
+				opts = append(opts, ucfg.PathSep("."))
+			}
+			opts = append(opts, polOption(c.Opts.Pol)...)
+			loaders := map[string]uflag.FileLoader{".json": ujson.NewConfigWithFile, ".yml": yaml.NewConfigWithFile}
+			if c.Opts.Dflt {
+				loaders[""] = ujson.NewConfigWithFile
+			}
+			fv := uflag.NewFlagFiles(nil, loaders, opts...)
+			var first error
+			for _, p := range paths {
+				for { // the files are written by whichever worker needs them first
+					if _, err := os.Stat(p); err == nil {
+						break
+					}
+					time.Sleep(time.Millisecond)
+				}
+				fv.Set(p)
+				if first == nil && fv.Error() != nil {
+					first = fv.Error()
+				}
+				if first != nil && fv.Error() != first {
+					out.Note = "the collector stopped reporting the first error"
+				}
+			}
+			m, l, err := observeTop(fv.Config(), ucfg.PathSep("."))
+			if err != nil {
+				out.Panic = "unpack: " + err.Error()
+				return
+			}
+			out.M, out.L, out.Err = m, l, fv.Error() != nil
+			_ = fv.String()
+		})
+		if panicked {
+			out = flagsOutcome{Panic: msg}
+		}
+		rep.classify(raw, c.Exp.Ideal, c.Exp.Alts, eqFlags(out), func() interface{} {
+			return map[string]interface{}{"files": paths, "outcome": out}
+		}, "flagfiles")
+	}, rep)
+	return rep.finish()
+}
+
+func init() {
+	register("flagfiles", &family{replay: flagFilesReplay})
 }
 
 // ---- driver --------------------------------------------------------------------------
